@@ -205,7 +205,7 @@ type ContentSpec struct {
 }
 
 // ErrKinds are the producer error identities the workloads draw from.
-var ErrKinds = []string{"", "eof", "wrapped-eof", "unexpected-eof", "short-write", "closed", "canceled"}
+var ErrKinds = []string{"", "eof", "wrapped-eof", "unexpected-eof", "short-write", "closed", "canceled", "empty-text", "text-4", "text-55"}
 
 func (c ContentSpec) failErr() error {
 	switch c.ErrKind {
@@ -219,6 +219,14 @@ func (c ContentSpec) failErr() error {
 		return io.ErrShortWrite
 	case "closed":
 		return fs.ErrClosed
+	case "empty-text":
+		// an error whose text is empty, or so short that it cannot be a reply line: whoever
+		// looks for a reply code in it must not fall over
+		return errors.New("")
+	case "text-4":
+		return errors.New("4")
+	case "text-55":
+		return errors.New("55")
 	case "canceled":
 		return fmt.Errorf("producer: %w", context.Canceled)
 	}
